@@ -30,7 +30,7 @@ def violates_limit(p, cfgA):
     if dg.mass(p) < limA.min_mw + 1e-6:
         return True
     # number of internal sites: upper bound = loose sites (the tool may cut at any of them)
-    n_loose = len(set(rules.loose_sites(p, limA.rule)) | set(rules.cleave_sites(p, limA.rule, None)))
+    n_loose = len(set(rules.loose_sites_no_context(p, limA.rule)) | set(rules.cleave_sites(p, limA.rule, None)))
     return n_loose > limA.miscleavage
 
 
